@@ -188,3 +188,7 @@ def run(ctx: Context) -> None:  # noqa: F811
 
     ctx.rep.rule('C07.R9', 'an abandoned waiter never leaves behind a never-started connection holding a slot (shared with C05.R9)')
     _assignment_consumed_or_undone(ctx, 'C07.R9')
+    from . import plumb
+
+    ctx.rep.rule('C07.R10', 'a connection created for a request accepts that request: the origin it is created with is stored unchanged, so the origin gate - which runs before the failure-marking try - cannot reject it (a rejected fresh connection stays CONNECTING forever)')
+    plumb.plumbing(ctx, 'C07.R10', ['origin', 'remote_origin'])
